@@ -58,7 +58,11 @@ func judge(c *vh.Ctx, r *lc.Rig, tag string) {
 	closed := false // a calm Close returned, no Open call since
 	open, unknown := false, false
 	desc := func() string { return tag + " " + role(r.Active) + " | " + lc.Tokens(evs) }
+	abandoned := false
 	for _, e := range evs {
+		if abandoned {
+			break
+		}
 		switch e.K {
 		case "OC":
 			closed = false
@@ -66,6 +70,9 @@ func judge(c *vh.Ctx, r *lc.Rig, tag string) {
 			switch e.Res {
 			case "panic":
 				c.Fail("C10: Open panicked", desc())
+			case "hung":
+				c.Fail("C10: Open did not return within its context timeout + 15 s", desc())
+				abandoned = true
 			case "already":
 				if e.Solo && !unknown && !open {
 					c.Fail("C10: ErrAlreadyOpen from a connection that is not open", desc())
@@ -90,6 +97,9 @@ func judge(c *vh.Ctx, r *lc.Rig, tag string) {
 			switch e.Res {
 			case "panic":
 				c.Fail("C10: Close panicked", desc())
+			case "hung":
+				c.Fail("C10: Close did not return within 15 s", desc())
+				abandoned = true
 			case "notopen":
 				if e.Solo && !unknown && open {
 					c.Fail("C10: Close returned ErrNotOpen on an open connection", desc())
@@ -144,7 +154,128 @@ func checkCloseLatency(c0 *vh.Ctx, r *lc.Rig, res lc.CloseRes, tag string) {
 
 // ---------------------------------------------------------------------------------------------
 
+// ensureOpenPass: a redundant Open WHILE a reconnect loop is in flight (after a drop with the peer
+// unreachable; on the OpenBackground cold-peer path; passive with the listen failing) must return
+// ErrAlreadyOpen and have NO side effect: the lifecycle fences read through the verif hook
+// (shutdown, reconnectGen, supervisor, current generation) are identical before and after, the loop
+// is still alive, and once the peer is reachable the connection re-selects by itself.
+func ensureOpenPass(c *vh.Ctx) {
+	type sc struct {
+		name   string
+		active bool
+		cold   bool
+	}
+	for _, x := range []sc{{"after-drop", true, false}, {"cold-peer", true, true}, {"listen-failing", false, false}} {
+		cfg := lc.DefaultCfg()
+		cfg.BackoffInit, cfg.BackoffMult, cfg.T5 = 5*time.Millisecond, 1, 5*time.Millisecond
+		const nfail = 16
+		r, err := lc.New(x.active, cfg, func(n int) lc.Plan {
+			if !x.active {
+				if n < 0 { // listen calls: the first succeeds, the next nfail fail
+					k := -1 - n
+					return lc.Plan{ListenErr: k >= 1 && k <= nfail}
+				}
+				p := lc.Normal()
+				if n == 0 {
+					p.DropAfter = 3 * time.Millisecond
+				}
+				return p
+			}
+			first := 0
+			if !x.cold {
+				first = 1
+				if n == 0 {
+					p := lc.Normal()
+					p.DropAfter = 3 * time.Millisecond
+					return p
+				}
+			}
+			if n < first+nfail {
+				return lc.Refused()
+			}
+			return lc.Normal()
+		})
+		if err != nil {
+			c.Fail("C10: cannot build a connection", err.Error())
+			continue
+		}
+		tag := "ensure-open:" + x.name
+		stop := make(chan struct{})
+		if !x.active {
+			go func() {
+				for {
+					select {
+					case <-stop:
+						return
+					default:
+					}
+					r.PeerConnect(5 * time.Millisecond)
+					time.Sleep(time.Millisecond)
+				}
+			}()
+		}
+		if o := r.Open(false, 2*time.Second); o.Class != "ok" {
+			c.Fail("C10: Open(background) failed", tag+": "+o.Class)
+		}
+		// wait until a reconnect loop is in flight: the gauge is up and at least one retry has failed
+		failed := func() int {
+			n := 0
+			for _, e := range r.Events() {
+				if e.K == "D" && (e.Res == "refused" || e.Res == "listenerr") {
+					n++
+				}
+			}
+			return n
+		}
+		dl := time.Now().Add(3 * time.Second)
+		for time.Now().Before(dl) && !(failed() >= 2 && r.Conn.Metrics().Reconnecting() >= 1) {
+			time.Sleep(200 * time.Microsecond)
+		}
+		if r.Conn.Metrics().Reconnecting() < 1 {
+			c.Fail("C10: harness: no reconnect loop in flight", tag)
+		}
+		pokes, changed := 0, ""
+		for i := 0; i < 3; i++ {
+			before := hsms.VerifLifecycleSnapshot(r.Conn)
+			o := r.Open(i%2 == 0, 50*time.Millisecond)
+			after := hsms.VerifLifecycleSnapshot(r.Conn)
+			if o.Class != "already" {
+				c.Fail("C10: Open on an open, reconnecting connection did not return ErrAlreadyOpen", tag+": "+o.Class)
+			}
+			if !before.Found {
+				c.Fail("C10: harness: lifecycle hook did not find the engine", tag)
+			}
+			// the fences a redundant Open must not touch (the loop itself may legitimately move cur/gauges)
+			if before.Shutdown != after.Shutdown || before.ReconnectGen != after.ReconnectGen || before.SupSet != after.SupSet || before.SupStopped != after.SupStopped {
+				changed = fmt.Sprintf("shutdown %v->%v reconnectGen_delta=%d supStopped %v->%v", before.Shutdown, after.Shutdown,
+					after.ReconnectGen-before.ReconnectGen, before.SupStopped, after.SupStopped)
+			}
+			pokes++
+			time.Sleep(time.Millisecond)
+		}
+		if changed != "" {
+			c.Fail("C10: ErrAlreadyOpen had a side effect on the lifecycle fences", tag+" "+changed)
+		}
+		// the peer becomes reachable after nfail failures: the connection must re-select by itself
+		if !r.WaitState(hsms.SelectedState, 6*time.Second) {
+			c.Fail("C10: after a redundant Open during reconnect the connection never re-selected", fmt.Sprintf("%s state=%v reconnecting=%d", tag, r.Conn.State(), r.Conn.Metrics().Reconnecting()))
+		} else if ok, _, _ := r.SendRoundTrip(time.Second); !ok {
+			c.Fail("C10: round trip failed after recovery", tag)
+		}
+		close(stop)
+		res := r.Close()
+		checkCloseLatency(c, r, res, tag)
+		r.Shutdown()
+		c.Count("ensure-open/" + x.name)
+		judge(c, r, tag)
+		// A <scenario> | <reconnectGen delta of the redundant Opens> <loop alive afterwards>   (model: 0 1)
+		line := fmt.Sprintf("A %s | %s %d", x.name, vh.B01(changed != ""), pokes)
+		c.Case(line, line, true)
+	}
+}
+
 func seqPass(c *vh.Ctx) {
+	ensureOpenPass(c)
 	for i := 0; i < c.N; i++ {
 		active := i%2 == 0
 		cycles := 1 + c.Rng.Intn(3)
@@ -180,6 +311,9 @@ func seqPass(c *vh.Ctx) {
 			// already open: blocking and background
 			if a := r.Open(c.Rng.Intn(2) == 0, time.Second); a.Class != "already" {
 				c.Fail("C10: Open on an open connection did not return ErrAlreadyOpen", fmt.Sprintf("%s cycle %d: %s", tag, k, a.Class))
+				if a.Class == "hung" {
+					break
+				}
 			}
 			if r.Conn.State() != hsms.SelectedState {
 				c.Fail("C10: a refused Open disturbed the session", fmt.Sprintf("%s cycle %d", tag, k))
@@ -372,7 +506,7 @@ func histPass(c *vh.Ctx) {
 		// final Close: calm by construction
 		res := r.Close()
 		checkCloseLatency(c, r, res, tag)
-		if !res.Calm {
+		if !res.Calm && res.Class != "hung" {
 			c.Fail("C10: harness: final Close was not calm", tag)
 		}
 		r.Shutdown()
